@@ -280,8 +280,23 @@ def _shim() -> None:
 # harness 1: the compiler-level batch generator
 
 
-def h_batches(cfg: str, n: int, sis: bool, bs: int, maxp: int, v: int) -> bool:
+def _pick(tier: str, dialect: str, part: int, ci, ni, nmax: int):
+    """configuration and number of parameter sets from symbolic indexes (indexing a concrete list with a
+    symbolic index forks once per entry): few, coarse slices, so that the framework's per-slice cap on
+    recorded counterexamples bounds the replay work if everything breaks at once"""
+    names = [nm for nm in _names(tier) if nm.split("/")[0] == dialect]
+    if part >= 0:
+        names = names[part::2]
+    assume(0 <= ci < len(names))
+    assume(1 <= ni <= nmax)
+    return names[ci], list(range(nmax + 1))[ni]
+
+
+def h_batches(tier: str, dialect: str, part: int, nmax: int, sis_all: bool, ci: int, ni: int, sis: bool, bs: int, maxp: int, v: int) -> bool:
     _shim()
+    cfg, n = _pick(tier, dialect, part, ci, ni, nmax)
+    if sis and not sis_all:
+        assume(n == 3 or n == 5 or n == nmax)
     c = CFGS[cfg]
     imv = c.imv
     assume(1 <= bs <= n + 2)
@@ -402,8 +417,9 @@ class _Context:
         return cursor.fetchall()
 
 
-def h_sentinel(cfg: str, n: int, bs: int, k0: int, k1: int, k2: int, k3: int, k4: int, k5: int) -> bool:
+def h_sentinel(tier: str, dialect: str, nmax: int, ci: int, ni: int, bs: int, k0: int, k1: int, k2: int, k3: int, k4: int, k5: int) -> bool:
     _shim()
+    cfg, n = _pick(tier, dialect, -1, ci, ni, nmax)
     c = CFGS[cfg]
     imv = c.imv
     assume(1 <= bs <= n + 1)
@@ -495,41 +511,52 @@ META = {
 }
 
 
+# the thorough tier runs every statement shape on every dialect variant except three that compile to the same
+# statements as another one in the matrix (psycopg = postgresql; pyformat ~ postgresql; format ~ mariadb)
+THOROUGH_SKIP = ("psycopg", "pyformat", "format")
+
+
+def _names(tier: str):
+    if tier == "quick":
+        return [nm for nm in sorted(CFGS) if nm.split("/")[1] in QUICK.get(nm.split("/")[0], ())]
+    return [nm for nm in sorted(CFGS) if nm.split("/")[0] not in THOROUGH_SKIP]
+
+
 def harnesses(tier: str) -> List[Harness]:
     q = tier == "quick"
     nmax = 7 if q else 12
-    names = [nm for nm in sorted(CFGS) if not q or nm.split("/")[1] in QUICK.get(nm.split("/")[0], ())]
+    smax = 4 if q else 5
+    names = _names(tier)
     META["bounds"][tier] = {"parameter sets": "1..%d" % nmax, "batch_size": "1..n+2 symbolic",
                             "insertmanyvalues_max_parameters": "off, or any value admitting 1..n+2 rows per batch (symbolic)",
-                            "setinputsizes": "off/on", "configurations": names,
-                            "sentinel re-sort": "n <= %d, every arrival order of every batch" % (4 if q else 5)}
-    s1 = []
-    for name in names:
-        for n in range(1, nmax + 1):
-            for sis in (False, True):
-                if sis and (q and n not in (3, 5)):
-                    continue
-                s1.append(dict(cfg=name, n=n, sis=sis))
-    s2 = []
-    smax = 4 if q else 5
-    for name in names:
-        for n in range(1, smax + 1):
-            d = dict(cfg=name, n=n)
-            for i in range(n, 6):
-                d["k%d" % i] = 0
-            s2.append(d)
-    return [Harness("batches", h_batches, s1, budget_s=60 if q else 300),
-            Harness("sentinel", h_sentinel, s2, budget_s=60 if q else 300)]
+                            "setinputsizes": "off; on for n in {3,5,%d}" % nmax, "configurations": names,
+                            "sentinel re-sort": "n <= %d, every arrival order of every batch" % smax}
+    dialects = sorted({nm.split("/")[0] for nm in names})
+    s1 = [dict(tier=tier, dialect=d, part=p, nmax=nmax, sis_all=False) for d in dialects for p in (0, 1)
+          if len([nm for nm in names if nm.split("/")[0] == d][p::2])]
+    s2 = [dict(tier=tier, dialect=d, nmax=smax, k5=0, **({"k4": 0} if smax < 5 else {})) for d in dialects]
+    return [Harness("batches", h_batches, s1, budget_s=300 if q else 1500),
+            Harness("sentinel", h_sentinel, s2, budget_s=300 if q else 1500)]
+
+
+def _resolve(a):
+    names = [nm for nm in _names(a["tier"]) if nm.split("/")[0] == a["dialect"]]
+    if a.get("part", -1) >= 0:
+        names = names[a["part"]::2]
+    return names[a["ci"]], a["ni"]
 
 
 def classify(hname, args, rep):
     a = dict(args)
+    a["cfg"], a["n"] = _resolve(a)
     if hname == "batches":
-        return ("C12:batches:%s:n=%s:bs=%s:maxp=%s:sis=%s" % (a["cfg"], a["n"], a["bs"], a["maxp"], a["sis"]),
+        n, bs = a["n"], a["bs"]
+        rel = "n<=batch_size" if n <= bs else ("n%batch_size==0" if n % bs == 0 else "n%batch_size!=0")
+        return ("C12:batches:%s:%s:max_parameters=%s:setinputsizes=%s" % (a["cfg"], rel, "on" if a["maxp"] else "off", a["sis"]),
                 "batch generator output for %s with %s parameter sets, batch_size=%s, max_parameters=%s violates the "
                 "partition/placeholder oracle (%s)" % (a["cfg"], a["n"], a["bs"], a["maxp"], rep.get("exception")))
     prio = [a["k%d" % i] for i in range(a["n"])]
-    return ("C12:sentinel:%s:n=%s:bs=%s" % (a["cfg"], a["n"], a["bs"]),
+    return ("C12:sentinel:%s:%s" % (a["cfg"], "single-batch" if a["n"] <= a["bs"] else "multi-batch"),
             "sentinel re-sort for %s: %s parameter sets, batch_size=%s, arrival insert positions %s: row i is not parameter "
             "set i (%s)" % (a["cfg"], a["n"], a["bs"], prio, rep.get("exception")))
 
